@@ -50,6 +50,9 @@ CLAIMED = {
  "C14": ("fault_enumeration", "exhaustive crash-point enumeration through feature-gated hooks (every byte offset and step boundary of the cache write) over generated year contents",
          "For each generated year content and prior cache state the write is interrupted at every byte offset and every step (create, flush, sync, rename); a later run must never compute with a rate differing from the published one.",
          "Operations persist in program order; filesystems reordering un-synced writes are outside the model. Contents are sampled, crash points per content are exhaustive.", "DESIGN.md section 4 C14"),
+ "C05": ("exploration", "property-based testing (structured-then-damaged CSV x options, domain-edge values) with a panic/abort oracle, plus coverage-guided libFuzzer targets in the thorough tier",
+         "Valid generated inputs are damaged by 0-5 mutations (columns, cells, quoting, encoding, truncation) and combined with every option; fields at the edges of the stated numeric domain are combined in short histories; each run must return a report or a non-empty diagnostic naming a file, row, security or option, and never panic/abort (in-process hook + catch_unwind; a sample through the real binary).",
+         "'Never loops' is only observable through the watchdog (inconclusive, not a violation). Two panics are recorded as known findings (F-05c product overflow, F-05e division overflow on rounding residue).", "DESIGN.md section 4 C05"),
 }
 NOT_YET = "check not built yet in this round (planned: see DESIGN.md section 4)"
 
